@@ -175,14 +175,18 @@ type Sim struct {
 	SlowMax      int
 	SlowDurs     []time.Duration
 	SlowMatch    func(label string) bool
-	slowCount    int
-	labels       map[string]int
-	nontriv      atomic.Bool
-	finished     bool
-	TimedOut     bool
-	StepsOut     bool
-	End          time.Duration // simulated time at which the scheduler stopped
-	StuckDump    string        // goroutine stacks taken when the run ended unfinished
+	// SlowWhere, if set, is consulted instead of SlowMatch with the chain of calling
+	// functions of the parked goroutine (innermost first, "a<b<c"), so that a fault can
+	// aim at a lock acquisition inside one particular function
+	SlowWhere func(label, where string) bool
+	slowCount int
+	labels    map[string]int
+	nontriv   atomic.Bool
+	finished  bool
+	TimedOut  bool
+	StepsOut  bool
+	End       time.Duration // simulated time at which the scheduler stopped
+	StuckDump string        // goroutine stacks taken when the run ended unfinished
 }
 
 func goid() int64 {
@@ -341,7 +345,7 @@ func (s *Sim) Park(label string) {
 		s.mu.Unlock()
 	}
 	p := &parked{label: label, gid: g, rel: make(chan int, 1)}
-	if s.traceOn {
+	if s.traceOn || s.SlowWhere != nil {
 		p.where = callerChain()
 	}
 	s.parkCh <- p
@@ -441,7 +445,7 @@ func (s *Sim) enabled(now time.Duration) []enabledEv {
 	for i, p := range s.parked {
 		if !p.slowChecked {
 			p.slowChecked = true
-			if s.SlowPermille > 0 && s.slowCount < s.SlowMax && len(s.SlowDurs) > 0 && s.SlowMatch != nil && s.SlowMatch(p.label) {
+			if s.SlowPermille > 0 && s.slowCount < s.SlowMax && len(s.SlowDurs) > 0 && ((s.SlowWhere != nil && s.SlowWhere(p.label, p.where)) || (s.SlowWhere == nil && s.SlowMatch != nil && s.SlowMatch(p.label))) {
 				if s.Sched.Intn(1000) < s.SlowPermille {
 					d := s.SlowDurs[s.Sched.Intn(len(s.SlowDurs))]
 					s.slowGid[p.gid] = wall.Add(d)
